@@ -405,11 +405,9 @@ func VerifNoPanic_IntentConversion() {
 
 // VerifNoPanic_IntentConversionLeaflistNotArray: an update on the root
 // container whose JSON value holds a leaf-list member that is no array (null,
-// string, object, number). NOT REGISTERED in checks/C20.json: every path ends
-// as inconclusive in the engine (method call on the result of reflect.TypeOf,
-// converter.go:312). Natively (go test replay), document 0
-// ({"leaflist":{"entry":null}}) panics there: reflect.TypeOf(nil) is a nil
-// reflect.Type; the other documents return an error.
+// string, object, number). Before fix b086e8f document 0
+// ({"leaflist":{"entry":null}}) panicked in ExpandContainerValue
+// (reflect.TypeOf(nil).Name()); the other documents return an error.
 func VerifNoPanic_IntentConversionLeaflistNotArray() {
 	env := vNewEnv()
 	n := verifrt.Choice("doc", len(v20JSONLeaflistNotArrayDocs))
